@@ -1115,7 +1115,7 @@ func (m *Nitro) LoadFromDisk(dir string, concurr int, callb ItemCallback) (*Snap
 					itm, err := r.ReadItem()
 					if err != nil {
 						errors[shard] = err
-						return
+						break loop
 					}
 
 					if itm == nil {
@@ -1203,7 +1203,7 @@ func (m *Nitro) LoadFromDisk(dir string, concurr int, callb ItemCallback) (*Snap
 						itm, err := r.ReadItem()
 						if err != nil {
 							errors[shard] = err
-							return
+							break loop
 						}
 
 						if itm == nil {
